@@ -66,6 +66,33 @@ Definition route_bytes (path : list Z) (auto_slot pad_length : bool) : res (list
   let* (_, segs) := parse_connection_path path auto_slot in
   encode_route segs pad_length.
 
+(* what a caller observes from a path string: the exception, or host, TCP port and route bytes *)
+Definition outcome (path : list Z) (auto_slot pad_length : bool) : exn + (list Z * option Z * list Z) :=
+  match parse_connection_path path auto_slot with
+  | Err e => inl e
+  | Ok (h, t, segs) =>
+      match encode_route segs pad_length with
+      | Err e => inl e
+      | Ok b => inr (h, t, b)
+      end
+  end.
+
+(* CIPDriver.__init__ (and LogixDriver / SLCDriver through super().__init__): the class attribute
+   _auto_slot_cip_path selects the shortcuts; _cfg["ip address"], _cfg["port"] = port or 44818,
+   _cfg["cip_path"] *)
+Inductive driver := CIPDriver | LogixDriver | SLCDriver.
+Definition auto_slot_of (d : driver) : bool :=
+  match d with
+  | CIPDriver => auto_slot_CIPDriver
+  | LogixDriver => auto_slot_LogixDriver
+  | SLCDriver => auto_slot_SLCDriver
+  end.
+Record cfg := mkCfg { cfg_ip : list Z; cfg_port : Z; cfg_cip_path : list seg }.
+Definition driver_init (d : driver) (path : list Z) : res cfg :=
+  let* (hp, segs) := parse_connection_path path (auto_slot_of d) in
+  let '(h, p) := hp in
+  Ok (mkCfg h (match p with Some z => if z =? 0 then 44818 else z | None => 44818 end) segs).
+
 (* generic_message(route_path=<str>) *)
 Definition route_bytes_of_route_string (route : list Z) : res (list Z) :=
   let* segs := parse_cip_route route false in
